@@ -28,7 +28,20 @@ does not match the nominal one); every other deviation of the SSP-RK3 kernel is 
 With /verif/fixes/F5-not-applied.diff the kernel is nominal and the check is silent.
 
 Self-test (tools/mut.sh, quick tier, seed 0):
-MUTATION_TABLE
+  pinned tree (F5 present): only mechanism ssprk3==I+2A/3+A^2/3+A^3/12, seeds 0..5 quick and 0 thorough (every SSP-RK3 case
+        in which the two polynomials differ by more than the floor; in the few others A w ~ 0 and both match)
+  F5-not-applied.diff (nominal kernel)                                   -> HELD
+  advection 2-D / 3-D: inv_dx=-dt_by_dx -> inv_dx=dt_by_dx (sign)           -> advection-euler!=field-dt/dx*flux, ...!=field+flux(-dt/dx)
+  advection 3-D vector: z component stepped from the x component          -> advection-euler!=field-dt/dx*flux
+  advection 2-D: reset of the flux buffer dropped                         -> advection-euler-depends-on-buffer-garbage
+  diffusion 2-D: flux added twice (second elementwise sum)                -> diffusion-euler!=field+flux
+  diffusion 3-D: prefactor doubled / vector variant y := x component      -> diffusion-euler!=field+flux
+  stretching Euler: prefactor halved                                      -> stretching-euler!=field+flux
+  SSP-RK3 weights (0.75,0.25)->(0.25,0.75)   [pinned tree and nominal]    -> ssprk3!=nominal
+  SSP-RK3 weights (1/3,2/3)->(2/3,1/3)       [pinned tree and nominal]    -> ssprk3!=nominal
+  SSP-RK3 second stage flux from the original field [pinned and nominal]  -> ssprk3!=nominal (on the pinned tree the
+        cases with ||A|| <~ 1e-3 in float32 still match the F5 polynomial to the floor; the larger steps do not)
+  SSP-RK3 third stage with dt/4 instead of dt/2                           -> ssprk3!=nominal (not mistaken for F5)
 """
 import numpy as np
 
@@ -151,7 +164,7 @@ def _run_diffusion(ctx, d):
     else:
         steps = {ft: spne.gen_diffusion_timestep_euler_forward_pyst_kernel_3d(real_t=real_t, num_threads=2, field_type=ft) for ft in ("scalar", "vector")}
         flux = spne.gen_diffusion_flux_pyst_kernel_3d(real_t=real_t, num_threads=2)
-    nshape = 4 if ctx.tier == "quick" else 8
+    nshape = 6 if ctx.tier == "quick" else 12
     for variant, step in steps.items():
         for k in range(nshape):
             shape = _shape(rng, d, k, ctx.tier)
@@ -195,7 +208,7 @@ def _run_advection(ctx, d):
     else:
         steps = {ft: spne.gen_advection_timestep_euler_forward_conservative_eno3_pyst_kernel_3d(real_t=real_t, num_threads=2, field_type=ft) for ft in ("scalar", "vector")}
         flux = spne.gen_advection_flux_conservative_eno3_pyst_kernel_3d(real_t=real_t, num_threads=2)
-    nshape = 4 if ctx.tier == "quick" else 8
+    nshape = 6 if ctx.tier == "quick" else 12
     for variant, step in steps.items():
         for k in range(nshape):
             shape = _shape(rng, d, k, ctx.tier)
@@ -276,7 +289,7 @@ def _run_stretching(ctx, scheme):
     rec, rng, real_t, eps = ctx.rec, ctx.rng, ctx.real_t, ctx.eps
     flux = spne.gen_vorticity_stretching_flux_pyst_kernel_3d(real_t=real_t, num_threads=2)
     euler = spne.gen_vorticity_stretching_timestep_euler_forward_pyst_kernel_3d(real_t=real_t, num_threads=2) if scheme == "euler" else None
-    nshape = (5 if scheme == "euler" else 6) if ctx.tier == "quick" else 10
+    nshape = (6 if scheme == "euler" else 8) if ctx.tier == "quick" else 14
 
     for k in range(nshape):
         shape = _stretch_setup(ctx, k)
